@@ -148,3 +148,12 @@ def check(ctx, rule, only=None, extras=False):
         ctx.check(got == "Ok(())" and order[:1] == ["commit"] and "swap" in order, rule, RUN, "files-swapped-after-commit", "commit / swap order: %s" % order, b.sp)
         got2, log2 = evaluate(f, [n for n in normal if n.startswith("records") or n.startswith("latest")], [])
         ctx.check(got2 == "Ok(())", rule, RUN, "tables-absent-from-the-old-file-are-skipped", "old file holding only the record tables: run returns %s" % got2, b.sp)
+        # round 13 (C18-13): an old file that lacks the head table and / or the key-ordered index - "as databases written by earlier
+        # versions do" - is converted all the same: the records are carried, the start-up migrations rebuild the rest afterwards
+        for label, present in (("no-heads-no-index", [n for n in normal if not n.startswith("latest") and not n.startswith("records-by-key")]),
+                               ("no-index", [n for n in normal if not n.startswith("records-by-key")]),
+                               ("no-heads", [n for n in normal if not n.startswith("latest")])):
+            got3, log3 = evaluate(f, present, multi)
+            rec = [e[2] for e in log3 if e[0] == "insert" and e[1] == "records-1"]
+            ctx.check(got3 == "Ok(())" and rec == [["val(k(records-1))", "val(v(records-1))"]], rule, RUN, "old-file-without-derived-tables[%s]" % label,
+                      "old file holding %s: run returns %s, records carried: %s; spec: Ok, the records row copied" % (sorted(present + multi), got3, rec), b.sp)
